@@ -174,8 +174,12 @@ class SimpleClient:
         while not self.input_buffer:
             if not self.connected_event.wait(
                     timeout=timeout):  # pragma: no cover
+                if self.input_buffer:
+                    break  # an event arrived during the wait
                 raise TimeoutError()
             if not self.connected:
+                if self.input_buffer:
+                    break  # return buffered events before reporting the end
                 raise DisconnectedError()
             if not self.input_event.wait(timeout=timeout):
                 raise TimeoutError()
